@@ -208,12 +208,41 @@ def build(spec):
         if home == 'T':
             for q_ in qs[n0:]:
                 q_.tags.append('formula-on-second-sheet')
+    overrides = []
+    if spec.get('wholecol') and not any(k is None for k in keys) and all(not (isinstance(k, str) and k == '') for k in keys):
+        # the whole-column spelling of the key column / the table (exact modes only: what the blank rows below the keys mean to an
+        # approximate search is not asserted), and keys planted below the data through the executor: positions are row numbers
+        table = tables['S']
+        last = COLS[width - 1]
+        for lk in spec['lookups'][:4]:
+            v = lk['v']
+            if v in (0, '') or v is None or isinstance(v, bool):
+                continue
+            i = o_exact_first(keys, v)
+            qs.append(Q(f'=MATCH({lit(v)},A:A,0)', i + 1 if i is not None else NA, 'MATCH:whole-column', True, ['fn:MATCH', 'whole-column']))
+            qs.append(Q(f'=XMATCH({lit(v)},$A:$A,0)', i + 1 if i is not None else NA, 'XMATCH:whole-column', True, ['fn:XMATCH', 'whole-column']))
+            if width >= 2:
+                exp_ = table[i][width - 1] if i is not None else NA
+                qs.append(Q(f'=VLOOKUP({lit(v)},A:{last},{width},FALSE)', F.BLANK if exp_ is None else exp_, 'VLOOKUP:whole-column', True, ['fn:VLOOKUP', 'whole-column']))
+                if i is not None:
+                    qs.append(Q(f'=INDEX(B:B,MATCH({lit(v)},A:A,0))', table[i][1], 'INDEX(MATCH):whole-column', True, ['fn:INDEX', 'whole-column']))
+            on += ['S'] * (len(qs) - len(on))
+        gap = spec.get('below_gap')
+        if gap is not None and width >= 2:
+            row = h + 1 + gap
+            newkey = 777777
+            overrides = [('S', 'A', str(row), newkey), ('S', 'B', str(row), 888888)]
+            for f_, e_ in ((f'=MATCH({newkey},A:A,0)', row), (f'=XMATCH({newkey},A:A,0,-1)', row), (f'=INDEX(B:B,{row})', 888888),
+                           (f'=VLOOKUP({newkey},A:B,2,FALSE)', 888888), (f'=INDEX(A:B,{row},2)', 888888)):
+                qs.append(Q(f_, e_, 'whole-column:key-set-below', True, ['whole-column', 'key-set-below', f'gap:{min(gap, 3)}']))
+            on += ['S'] * (len(qs) - len(on))
     # COLUMN(): own column.  fcase lays the queries of a sheet out in one row starting at first_col
     first_col = 12
     if spec.get('column_self'):
         qs.append(Q('=COLUMN()', first_col + sum(1 for x in on if x == 'S'), 'COLUMN:self', True, ['fn:COLUMN']))
         on.append('S')
-    return {'sheets': [{'title': t, 'cells': cells_of[t]} for t in tables], 'queries': qs, 'on': on, 'first_col': first_col, 'ncols': 400}
+    return {'sheets': [{'title': t, 'cells': cells_of[t]} for t in tables], 'queries': qs, 'on': on, 'first_col': first_col, 'ncols': 400,
+            **({'overrides': overrides} if overrides else {})}
 
 
 def run_case(spec):
@@ -328,7 +357,8 @@ def strategy():
                 lk['short'] = draw(st.booleans())
             lookups.append(lk)
         return {'kind': kind, 'keys': keys, 'width': width, 'lookups': lookups,
-                'index_grid': draw(st.integers(0, 2)) == 0, 'column_self': draw(st.booleans()), 'twin': draw(st.integers(0, 2)) == 0}
+                'index_grid': draw(st.integers(0, 2)) == 0, 'column_self': draw(st.booleans()), 'twin': draw(st.integers(0, 2)) == 0,
+                'wholecol': draw(st.integers(0, 2)) == 0, 'below_gap': draw(st.sampled_from([None, None, 0, 1, 3, 7]))}
     return spec()
 
 
